@@ -139,6 +139,9 @@ def check_property(prop, tier, a):
     funcs = [q for q, c in reg.contracts.items() if prop in c.props and not c.extra.get("spec_only")]
     funcs += [f for f in plan.get("functions", []) if f not in funcs]
     timeout_ms = 10000 if tier == "quick" else 60000
+    if tier != "quick":
+        os.environ.setdefault("PYVC_JOB_DEADLINE_S", "2400")     # per-function process deadline (quick: 600 s)
+        os.environ.setdefault("PYVC_FUNC_BUDGET_S", "900")
     shards = {q: reg.contracts[q].extra.get("shards", 1) for q in funcs if q in reg.contracts}
     results = verify_functions(funcs, timeout_ms=timeout_ms, use_cvc5=True, shards=shards)
     lemma_results = plans.run_lemmas(prop, tier) if hasattr(plans, "run_lemmas") else []
